@@ -55,7 +55,7 @@ Section SHA2.
     let '(v, _) := fold_left round (kconst p) (hs, words 16 block) in
     map (fun xy => addw (fst xy) (snd xy)) (combine hs v).
 
-  Definition pad (msg : list byte) : list byte :=
+  Definition sha_pad (msg : list byte) : list byte :=
     let l := length msg in
     let lenb := (2 * wbytes)%nat in
     let r := ((l + 1 + lenb) mod block_len)%nat in
@@ -69,7 +69,7 @@ Section SHA2.
     end.
 
   Definition sha (msg : list byte) : list byte :=
-    let pm := pad msg in
+    let pm := sha_pad msg in
     firstn (out_len p) (concat (map (be_enc wbytes) (blocks (S (length pm / block_len)) (ivs p) pm))).
 
   Definition sha_block_len := block_len.
